@@ -93,10 +93,19 @@ func init() {
 		}
 		return unit(), true
 	}
+	harnessPrims["vWatchValue"] = func(in *Interp, fn *ssa.Function, a []Value, s ssa.Instruction) (Value, bool) {
+		// marks everything reachable from the argument (an object shared between calls, e.g. a
+		// loaded font); adds to the marks that exist
+		if in.watch == nil {
+			in.watch = map[*Obj]string{}
+		}
+		in.watchMark(a[0], "shared object", map[*Obj]bool{})
+		return unit(), true
+	}
 	harnessPrims["vWatchedWrites"] = func(in *Interp, fn *ssa.Function, a []Value, s ssa.Instruction) (Value, bool) {
 		n := len(in.watchHit)
 		for _, l := range in.watchHit {
-			in.notes["write to package-level state: "+l] = true
+			in.notes["write to watched state: "+l] = true
 		}
 		return in.tt.BV(uint64(n), 64), true
 	}
